@@ -523,3 +523,118 @@ def c18_search(rng, n):
             if len(fails) >= 2:
                 break
     return fails, st
+
+
+# ---------------------------------------------------------------------------------------------------------------
+# C20: batch rows are independent (perturb / permute rows on the real sdeint, torch.equal)
+# ---------------------------------------------------------------------------------------------------------------
+
+class RowSDE(nn.Module):
+    """Row-wise smooth SDE written with element-wise operations only (no matmul), so that the USER functions are
+    bit-wise independent of the row position; whatever cross-talk is observed then comes from the library."""
+
+    def __init__(self, noise_type, sde_type, d, m, seed=0):
+        super().__init__()
+        g = torch.Generator().manual_seed(seed)
+        self.noise_type, self.sde_type, self.d = noise_type, sde_type, d
+        self.m = d if noise_type == 'diagonal' else (1 if noise_type == 'scalar' else m)
+        r = lambda *s: 0.5 * torch.randn(*s, generator=g, dtype=torch.float64)
+        self.A, self.b, self.G, self.gb = r(d, d), r(d), r(d * self.m, d), r(d * self.m)
+
+    def _lin(self, M, y, i):
+        acc = M[i, 0] * y[:, 0]
+        for j in range(1, self.d):
+            acc = acc + M[i, j] * y[:, j]
+        return acc
+
+    def f(self, t, y):
+        return torch.stack([torch.tanh(self._lin(self.A, y, i) + self.b[i]) + 0.1 * torch.sin(t) for i in range(self.d)], 1)
+
+    def g(self, t, y):
+        if self.noise_type == 'diagonal':
+            return torch.stack([0.3 + 0.2 * torch.sin(self.G[i, i] * y[:, i] + self.gb[i] + t) for i in range(self.d)], 1)
+        if self.noise_type == 'additive':
+            out = torch.stack([0.3 * torch.cos(self.gb[k] * (1 + t)) + 0 * y[:, 0] for k in range(self.d * self.m)], 1)
+        else:
+            out = torch.stack([0.3 * torch.tanh(self._lin(self.G, y, k) + self.gb[k]) + 0.1 * t
+                               for k in range(self.d * self.m)], 1)
+        return out.reshape(y.shape[0], self.d, self.m)
+
+
+class RowOpBM(torchsde.BaseBrownian):
+    """a Brownian motion whose rows are re-arranged / replaced: out = op(base output)"""
+
+    def __init__(self, bm, op):
+        self.bm, self.op = bm, op
+
+    def __call__(self, ta, tb=None, return_U=False, return_A=False):
+        r = self.bm(ta, tb, return_U=return_U, return_A=return_A)
+        if isinstance(r, tuple):
+            return tuple(self.op(k, x) for k, x in enumerate(r))
+        return self.op(0, r)
+
+    def __repr__(self): return "RowOpBM"
+    dtype = property(lambda s: s.bm.dtype)
+    device = property(lambda s: s.bm.device)
+    shape = property(lambda s: s.bm.shape)
+    levy_area_approximation = property(lambda s: s.bm.levy_area_approximation)
+
+
+def c20_case(method, sde_type, noise, d, m, batch, seed, dt, row, kind):
+    sde = RowSDE(noise, sde_type, d, m, seed)
+    g = torch.Generator().manual_seed(seed)
+    y0 = 0.3 * torch.randn(batch, d, generator=g, dtype=torch.float64)
+    ts = [0.0, 0.3, 0.5]
+    p = dict(method=method, batch=batch, m=sde.m, seed=seed)
+    with torch.no_grad():
+        a = torchsde.sdeint(sde, y0, ts, bm=make_bm(p, 0.0, 0.5), method=method, dt=dt)
+        if kind == 'perturb':
+            other = make_bm(dict(p, seed=seed + 1), 0.0, 0.5)
+            noise_g = torch.Generator().manual_seed(seed + 2)
+
+            def op(k, x, cache={}):
+                # rows != `row` replaced by (something else); deterministic function of the base output
+                o = x.clone()
+                mask = torch.ones(batch, dtype=torch.bool)
+                mask[row] = False
+                o[mask] = o[mask] * 1.37 + 0.011
+                return o
+            y1 = y0.clone()
+            mask = torch.ones(batch, dtype=torch.bool)
+            mask[row] = False
+            y1[mask] = y1[mask] * -0.7 + 0.2
+            b = torchsde.sdeint(sde, y1, ts, bm=RowOpBM(make_bm(p, 0.0, 0.5), op), method=method, dt=dt)
+            ok = torch.equal(a[:, row], b[:, row])
+            dfc = float((a[:, row] - b[:, row]).abs().max())
+        else:
+            perm = torch.tensor(sorted(range(batch), key=lambda i: (i * 7 + seed) % batch + 0.01 * i))
+            if batch > 1 and torch.equal(perm, torch.arange(batch)):
+                perm = perm.flip(0)
+            b = torchsde.sdeint(sde, y0[perm], ts, bm=RowOpBM(make_bm(p, 0.0, 0.5), lambda k, x: x[perm]), method=method, dt=dt)
+            ok = torch.equal(a[:, perm], b)
+            dfc = float((a[:, perm] - b).abs().max())
+    return ok, dfc
+
+
+def c20_search(rng, n):
+    fails, st = [], dict(evals=0, perturb=0, permute=0, by_method={}, worst=0.0)
+    for _ in range(n):
+        method, sde_type, noise = random_solver(rng)
+        cfg = dict(method=method, sde_type=sde_type, noise=noise, d=rng.choice([1, 2, 3]), m=rng.choice([1, 2, 3]),
+                   batch=rng.choice([2, 3, 5]), seed=rng.randrange(10 ** 6), dt=rng.choice([0.125, 0.0625, 0.1]),
+                   kind=rng.choice(['perturb', 'permute']))
+        cfg['row'] = rng.randrange(cfg['batch'])
+        try:
+            ok, dfc = c20_case(**cfg)
+            bad = None if ok else f"row {cfg['row']} changed by {dfc} ({cfg['kind']})"
+        except Exception as e:  # noqa
+            bad, dfc = f'{type(e).__name__}: {e}', 0.0
+        st['evals'] += 1
+        st[cfg['kind']] += 1
+        st['by_method'][method] = st['by_method'].get(method, 0) + 1
+        st['worst'] = max(st['worst'], dfc)
+        if bad:
+            fails.append(dict(oracle='c20', why=bad, **cfg))
+            if len(fails) >= 2:
+                break
+    return fails, st
